@@ -100,7 +100,14 @@ func (h *Hist) genConfigs() {
 		cpu := int64(r.pickI(1000, 2000, 4000, 8000, 3900))
 		mem := int64(r.pickI(4, 8, 16, 15)) * GiB
 		for k := 0; k < nNodes; k++ {
-			h.addNode(i, cpu, mem, int64(r.pickI(0, 10, 100, 100, 1000, 5000, 86400)), true)
+			ago := int64(r.pickI(0, 10, 100, 100, 1000, 5000, 86400))
+			if focus == "ties" {
+				ago = int64(r.pickI(100, 100, 100, 200, 200, 300))
+			}
+			n := h.addNode(i, cpu, mem, ago, true)
+			if focus == "ties" && r.chance(8) {
+				n.CreatedZero = true
+			}
 		}
 		g.Desired = int64(len(g.Instances))
 		if g.Desired < g.Min {
